@@ -21,9 +21,12 @@
 From Coq Require Import QArith Qcanon List Arith Bool PeanoNat.
 Import ListNotations.
 Require Import Fggs.Model.Semiring Fggs.Model.SCC Fggs.Model.SumProduct Fggs.Model.SumProductCheck
-               Fggs.Model.Kleene Fggs.Model.EReal Fggs.Model.Trop Fggs.Model.Viterbi.
-Require Import Fggs.Proofs.SP_trees Fggs.Proofs.Viterbi_trop Fggs.Proofs.Viterbi_proofs
-               Fggs.Proofs.Viterbi_examples.
+               Fggs.Model.Kleene Fggs.Model.EReal Fggs.Model.Trop Fggs.Model.Viterbi Fggs.Model.ViterbiAlg.
+Require Import Fggs.Proofs.SP_mono Fggs.Proofs.SP_trees Fggs.Proofs.Viterbi_trop Fggs.Proofs.Viterbi_proofs
+               Fggs.Proofs.Viterbi_examples Fggs.Proofs.Kleene_scc
+               Fggs.Proofs.ViterbiAlg_base Fggs.Proofs.ViterbiAlg_loop Fggs.Proofs.ViterbiAlg_recon
+               Fggs.Proofs.ViterbiAlg_opt Fggs.Proofs.ViterbiAlg_check Fggs.Proofs.ViterbiAlg_main
+               Fggs.Proofs.ViterbiAlg_examples Fggs.Proofs.ViterbiAlg_rhsasst.
 Local Open Scope nat_scope.
 
 (** * 0. the carrier: (max, +) on [-inf, +inf] is an ordered commutative semiring *)
@@ -193,3 +196,241 @@ Theorem C04_example_all_trees_below :
   forall t, wf_dtree ex_G 0 [] t -> tle (weight trop_ops ex_G ex_w t) (trop_of ex_m1).
 Proof. exact ex_all_trees_below. Qed.
 Print Assumptions C04_example_all_trees_below.
+
+(** * 7. the code-shaped model of fggs/viterbi.py (Model/ViterbiAlg.v)
+    [argmax_rule], [F_viterbi_model] (value + lhs_pointer + per-rule rhs_pointer per cell, first
+    rule filling, overwritten on STRICT improvement), the per-component loop with the pointer
+    merge of repair b171ddf ([vstep], [vloop]), [reconstruct_model] with fuel, [viterbi_model].
+    The inside of log_viterbi_einsum_forward is taken by contract (maximum + one maximiser; the
+    model picks the first in row-major order, the implementation's choice among ties may differ:
+    derivations are compared up to ties by [vit_alg_check]). *)
+
+(** the pointer row determines the candidate: what [reconstruct] rebuilds from the externals'
+    values and the values of the summed-out nodes is the assignment the arg-max chose *)
+Theorem C04_rebuild_roundtrip :
+  forall G r xi a, In a (cands G r xi) -> rebuild r xi (sel a (summed r)) = a.
+Proof. exact rebuild_roundtrip. Qed.
+Print Assumptions C04_rebuild_roundtrip.
+
+(** [reconstruct]'s loop over the edges' nodes with the counter [ii] and the dict [rhs_asst]
+    ([rhs_asst_code], modelled statement by statement) computes [rebuild] when the pointer row
+    has one entry per summed-out node, and fails (IndexError / assertion) otherwise; [a0]
+    witnesses that the parent's assignment is consistent on repeated external nodes *)
+Theorem C04_reconstruct_assignment :
+  forall r xi ptr a0, sel a0 (r_ext r) = xi ->
+    rhs_asst_code r xi ptr
+    = if Nat.eqb (length (summed r)) (length ptr) then Some (rebuild r xi ptr) else None.
+Proof. exact rhs_asst_code_spec. Qed.
+Print Assumptions C04_reconstruct_assignment.
+
+(** ONE evaluation of F_viterbi at a cell: the value is the max over the rules of the max over
+    the candidates of the edge product; if it is not -inf, the lhs_pointer names a rule of the
+    nonterminal and that rule's rhs_pointer row rebuilds an in-range assignment that agrees
+    with the cell on the external nodes and whose edge product IS the value *)
+Theorem C04_F_viterbi_cell :
+  forall G lk n xi present v lp rps,
+    F_cell G lk n xi = (present, v, lp, rps) ->
+    length rps = length (rules_of G n)
+    /\ present = existsb (labels_ok lk) (rules_of G n)
+    /\ v = Fval G (lk_env lk) n xi
+    /\ (v <> NInf ->
+        exists r ptr, nth_error (rules_of G n) lp = Some r /\ nth lp rps None = Some ptr
+          /\ length ptr = length (summed r)
+          /\ In (rebuild r xi ptr) (all_assts (node_sizes G r))
+          /\ sel (rebuild r xi ptr) (r_ext r) = xi
+          /\ edges_prod (lk_env lk) r (rebuild r xi ptr) = v).
+Proof. exact F_cell_spec. Qed.
+Print Assumptions C04_F_viterbi_cell.
+
+(** the values of the loop are the Kleene iterates of the component's equations, increasing *)
+Theorem C04_loop_values :
+  forall G w done comp, wf_grammar G = true ->
+  forall k n xi, In n comp -> In xi (all_assts (lshape G n)) ->
+    rho G w done comp (S k) n xi = Fval G (E G w done comp k) n xi
+    /\ tle (rho G w done comp k n xi) (rho G w done comp (S k) n xi).
+Proof. exact loop_values. Qed.
+Print Assumptions C04_loop_values.
+
+(** C04_ptr_inv.  After ANY number k >= 1 of passes of the loop over a component ([viter k]: values
+    and merged pointers), every cell (n, xi) of the component has a value v = [rho k n xi], one
+    rhs_pointer slot per rule, and if v is finite: the lhs_pointer names a rule r of n, r's
+    rhs_pointer row rebuilds an in-range assignment agreeing with xi on the externals, and the
+    product of the edge values at that assignment -- terminal weights, finished components'
+    values, and for the component's own nonterminals the values of pass j-1 ([E (j-1)]), j <= k
+    being the pass in which the cell last strictly improved -- equals v. *)
+Theorem C04_ptr_inv :
+  forall G w done comp, wf_grammar G = true ->
+  forall k, 1 <= k ->
+  forall n xi, In n comp -> In xi (all_assts (lshape G n)) ->
+  exists S nr v lp rps,
+    viter G w done comp k = Some S /\ aget S n = Some nr /\ nt_cell nr xi = (v, lp, rps)
+    /\ v = rho G w done comp k n xi
+    /\ length rps = length (rules_of G n)
+    /\ (v <> NInf ->
+        exists j r ptr,
+          1 <= j <= k /\ rho G w done comp j n xi = v /\ rho G w done comp (j - 1) n xi <> v
+          /\ nth_error (rules_of G n) lp = Some r /\ nth lp rps None = Some ptr
+          /\ length ptr = length (summed r)
+          /\ In (rebuild r xi ptr) (all_assts (node_sizes G r))
+          /\ sel (rebuild r xi ptr) (r_ext r) = xi
+          /\ edges_prod (E G w done comp (j - 1)) r (rebuild r xi ptr) = v).
+Proof. exact ptr_inv_explicit. Qed.
+Print Assumptions C04_ptr_inv.
+
+(** what the loop returns is one of these states: [viter (K+1)] for some K < kmax, and its ghost
+    flag says whether the last two iterates were exactly equal *)
+Theorem C04_loop_returns_iterate :
+  forall G w done comp tol kmax st c,
+    vloop G w tol done comp kmax None None = Some (st, c) ->
+    exists K, K < kmax /\ viter G w done comp (S K) = Some st
+              /\ c = all_equal G comp (viter G w done comp K) st.
+Proof. exact loop_returns_iterate. Qed.
+Print Assumptions C04_loop_returns_iterate.
+
+(** in a STABLE state (the loop stopped with two equal iterates, or the component is trivial) the
+    values a finite cell's pointer was recorded with are the children's current values -- so the
+    pass in which a child inside the component reached its value is strictly earlier *)
+Theorem C04_recorded_values_are_current :
+  forall G w done comp, wf_grammar G = true ->
+  forall M n xi q j r ptr,
+    stable G w done comp M -> In n comp -> In xi (all_assts (lshape G n)) ->
+    rho G w done comp M n xi = TFin q -> j <= M -> In r (rules_of G n) ->
+    good_ptr G (E G w done comp j) r xi ptr (TFin q) ->
+    forall ed, In ed (r_edges r) ->
+      E G w done comp M (fst ed) (sel (rebuild r xi ptr) (snd ed))
+      = E G w done comp j (fst ed) (sel (rebuild r xi ptr) (snd ed)).
+Proof. exact stable_child. Qed.
+Print Assumptions C04_recorded_values_are_current.
+
+(** C04_reconstruct_terminates.  If every iterated component ended with two exactly equal
+    iterates (flag [true]; components pairwise disjoint), then for EVERY cell (X, xi) of the
+    final tables with a finite value, [reconstruct_model] with any fuel >= #components * (kmax+1)
+    returns a derivation that is well formed for (X, xi) and whose weight is the cell's value.
+    (One level of recursion per (component, pass): the recorded-at pass strictly decreases from
+    a cell to the children inside its component.)  Without the flag the statement is false:
+    [C04_unconverged_weight_refuted]. *)
+Theorem C04_reconstruct_terminates :
+  forall G w, wf_grammar G = true ->
+  forall order tol kmax T,
+    NoDup (concat order) ->
+    viterbi_tables G w order tol kmax = Some (T, true) ->
+    forall X xi, In xi (all_assts (lshape G X)) -> (exists q, tables_val T X xi = TFin q) ->
+    forall fuel, length order * S kmax <= fuel ->
+      exists t, reconstruct_model G T fuel X xi = Some t
+                /\ wf_dtree G X xi t /\ wf_dtree_b G X xi t = true
+                /\ weight trop_ops G w t = tables_val T X xi.
+Proof. exact reconstruct_terminates_explicit. Qed.
+Print Assumptions C04_reconstruct_terminates.
+
+(** the value tables are the least fixed point of the grammar's equations (max, +): a pre-fixed
+    point of [step], below every pre-fixed point, above every Kleene iterate and above the
+    weight of every well-formed derivation of every nonterminal *)
+Theorem C04_tables_lfp :
+  forall G w, wf_grammar G = true ->
+  forall order tol kmax T,
+    order_ok G order -> viterbi_tables G w order tol kmax = Some (T, true) ->
+    env_le_on trop_ops G (step trop_ops G w (tables_val T)) (tables_val T)
+    /\ (forall v : env (R:=trop), env_le_on trop_ops G (step trop_ops G w v) v -> env_le_on trop_ops G (tables_val T) v)
+    /\ (forall k, env_le_on trop_ops G (Zk trop_ops G w k) (tables_val T))
+    /\ (forall X xi t, wf_dtree G X xi t -> tle (weight trop_ops G w t) (tables_val T X xi)).
+Proof. exact tables_lfp. Qed.
+Print Assumptions C04_tables_lfp.
+
+(** C04_alg_optimal.  For a valid order of components (dependency order, every nonterminal once:
+    [order_ok], implied by the verified oracle [scc_ok] of C19), when every loop stopped with
+    two equal iterates and the start cell's value is finite: [viterbi_model] returns a
+    derivation; it is well formed; its weight is the start cell's value; NO derivation of the
+    start symbol at xi weighs more; every Kleene iterate is below it; and it is the value of
+    the exact enclosure of Model/Kleene.v (the optimum [vit_check] uses) whenever that exists *)
+Theorem C04_alg_optimal :
+  forall G w, wf_grammar G = true ->
+  forall order tol kmax T xi,
+    order_ok G order -> viterbi_tables G w order tol kmax = Some (T, true) ->
+    In xi (all_assts (lshape G (g_start G))) -> (exists q, tables_val T (g_start G) xi = TFin q) ->
+    exists t, viterbi_model G w order xi tol kmax = Some t
+      /\ wf_dtree G (g_start G) xi t
+      /\ weight trop_ops G w t = tables_val T (g_start G) xi
+      /\ (forall t', wf_dtree G (g_start G) xi t' -> tle (weight trop_ops G w t') (weight trop_ops G w t))
+      /\ (forall k, tle (Zk trop_ops G w k (g_start G) xi) (weight trop_ops G w t))
+      /\ (forall K lo u, enclosure trop_ops (fun x => x) (fun x => x) tleb G w K = Some (lo, u) ->
+                         weight trop_ops G w t = env_of trop_ops lo (g_start G) xi).
+Proof. exact alg_optimal. Qed.
+Print Assumptions C04_alg_optimal.
+
+(** the order Tarjan's model computes is accepted by [scc_ok] (C19); what [scc_ok] accepts is valid *)
+Theorem C04_scc_order_valid :
+  forall G order, scc_ok (nt_graph G) order = true -> order_ok G order.
+Proof. exact scc_ok_order_ok. Qed.
+Print Assumptions C04_scc_order_valid.
+
+(** soundness of the second check function: verdict 0 (the implementation's derivation is the
+    model's) or 32 (they differ by tie-breaking only) means: a derivation was returned, it is
+    well formed, its weight is finite and equals the model's start cell, no derivation of the
+    start symbol at xi weighs more, and the model itself returns a well-formed derivation of the
+    same weight *)
+Theorem C04_alg_check_sound :
+  forall gw ws xi kmax tol kind t,
+    let c := vit_alg_check (gw, ws, xi, (kmax, tol), (kind, t)) in
+    c = 0 \/ c = 32 ->
+    let G := grammar_of_w gw in
+    let w := env_of trop_ops (weights_tmt trop_of G ws) in
+    kind = 0 /\ wf_grammar G = true
+    /\ wf_dtree G (g_start G) xi t
+    /\ (exists q, weight trop_ops G w t = TFin q)
+    /\ (forall t', wf_dtree G (g_start G) xi t' -> tle (weight trop_ops G w t') (weight trop_ops G w t))
+    /\ exists order T tm,
+         scc (nt_graph G) = Some order /\ order_ok G order
+         /\ viterbi_tables G w order tol kmax = Some (T, true)
+         /\ weight trop_ops G w t = tables_val T (g_start G) xi
+         /\ viterbi_model G w order xi tol kmax = Some tm
+         /\ wf_dtree G (g_start G) xi tm
+         /\ weight trop_ops G w tm = weight trop_ops G w t.
+Proof. exact vit_alg_check_sound. Qed.
+Print Assumptions C04_alg_check_sound.
+
+(** C04_old_pointer_loop_refuted: the discipline BEFORE repair b171ddf (pointers of the last
+    evaluation only, [viterbi_old_model]) on  X -> X a | b  (a = 0, b = -1, cycle rule first):
+    [reconstruct_model] returns nothing for EVERY fuel (the pointer of X names the cycle rule,
+    whose child is X itself); the repaired discipline returns the derivation b of weight -1 *)
+Theorem C04_old_pointer_loop_refuted :
+  wf_grammar lp_G = true
+  /\ (forall fuel, viterbi_old_model lp_G lp_w lp_order [] tol6 1000 fuel = None)
+  /\ viterbi_model lp_G lp_w lp_order [] tol6 1000 = Some (DT 1 [] [None])
+  /\ wf_dtree lp_G 0 [] (DT 1 [] [None])
+  /\ weight trop_ops lp_G lp_w (DT 1 [] [None]) = TFin (Q2Qc ((-1) # 1)).
+Proof. exact old_pointer_loop_refuted. Qed.
+Print Assumptions C04_old_pointer_loop_refuted.
+
+(** the stability premise of C04_reconstruct_terminates cannot be dropped: cut off by kmax = 3,
+    the cell (B, [2]) holds -2 but the derivation reconstructed from it weighs 0 *)
+Theorem C04_unconverged_weight_refuted :
+  wf_grammar uc_G = true /\ order_ok uc_G uc_order
+  /\ viterbi_tables uc_G uc_w uc_order tol6 3 = Some (uc_T 3, false)
+  /\ tables_val (uc_T 3) 1 [2] = TFin (Q2Qc ((-2) # 1))
+  /\ exists t, reconstruct_model uc_G (uc_T 3) (fuel_bound uc_order 3) 1 [2] = Some t
+               /\ wf_dtree uc_G 1 [2] t
+               /\ weight trop_ops uc_G uc_w t = TFin (Q2Qc (0 # 1)).
+Proof. exact unconverged_weight_refuted. Qed.
+Print Assumptions C04_unconverged_weight_refuted.
+
+(** the hypotheses are satisfiable (the recursive grammar of section 6, weight-0 cycle first) *)
+Theorem C04_example_alg_hyps :
+  wf_grammar ex_G = true /\ scc (nt_graph ex_G) = Some ex_order /\ order_ok ex_G ex_order
+  /\ viterbi_tables ex_G ex_w ex_order tol6 1000 = Some (ex_T, true)
+  /\ In [] (all_assts (lshape ex_G (g_start ex_G)))
+  /\ (exists q, tables_val ex_T (g_start ex_G) [] = TFin q).
+Proof. exact ex_alg_hyps. Qed.
+Print Assumptions C04_example_alg_hyps.
+
+Theorem C04_example_alg_model : viterbi_model ex_G ex_w ex_order [] tol6 1000 = Some ex_t.
+Proof. exact ex_alg_model_tree. Qed.
+Print Assumptions C04_example_alg_model.
+
+Theorem C04_example_alg_check :
+  vit_alg_check (ex_gw, ex_ws, [], (1000, tol6), (0, ex_t)) = 0
+  /\ vit_alg_check (ex_gw, ex_ws, [], (1000, tol6), (0, ex_t_cycle)) = 32
+  /\ vit_alg_check (ex_gw, ex_ws, [], (1000, tol6), (0, ex_t_sub)) = 10
+  /\ vit_alg_check (ex_gw, ex_ws, [], (1000, tol6), (0, ex_t_bad1)) = 5
+  /\ vit_alg_check (ex_gw, ex_ws, [], (1000, tol6), (1, ex_t)) = 1.
+Proof. exact ex_alg_check. Qed.
+Print Assumptions C04_example_alg_check.
